@@ -83,3 +83,20 @@ pub fn lab4() {
         }
     }
 }
+
+pub fn lab5() {
+    let want = std::env::var("LAB_DESC").unwrap_or_default();
+    for i in 0..600u64 {
+        let seed = crate::util::mix(1, 0xC07_8000 + i);
+        let made = c08::scenario_r(seed);
+        if made.desc.contains(&want) {
+            println!("{}", made.desc);
+            for l in made.world.trace.render(0, 400) {
+                if l.contains(" tx v4") || l.contains(" api ") || l.contains(" ev#") || (l.contains(" rx ") && !l.contains("from=10.0.0.5") && !l.contains("from=[fe80::5")) {
+                    println!("  {}", crate::util::prefix(&l, 300));
+                }
+            }
+            break;
+        }
+    }
+}
